@@ -175,9 +175,9 @@ class Ctx:
         self.prefix = prefix            # tuple of ints (decisions to replay)
         self.decisions = []             # decisions taken on this path
         self.pc = []                    # list of bool terms
-        self.solver = z3.Solver()
-        self.solver.set('timeout', explorer.solver_timeout_ms)
-        self._z3cache = {}
+        self.solver = explorer.solver
+        self._z3cache = explorer.z3cache
+        self.solver.push()
         self.syms = {}                  # name -> meta
         self.counter = itertools.count()
         self.steps = 0
@@ -438,6 +438,9 @@ class Explorer:
         self.inconclusive = []
         self.samples = []
         self.declared = set()
+        self.solver = z3.SolverFor('QF_BV')
+        self.solver.set('timeout', solver_timeout_ms)
+        self.z3cache = {}
         self.cvc5_log = cvc5_log        # file object or None
         self.cvc5_count = 0
         self.time_budget = time_budget
@@ -487,6 +490,8 @@ class Explorer:
             self.violations.append(v)
         except (BoundExceeded, Unsupported) as e:
             self.inconclusive.append('%s: %s (decisions %s)' % (type(e).__name__, e, ctx.decisions[:40]))
+        finally:
+            self.solver.pop()
         st.steps += ctx.steps
         st.max_decisions = max(st.max_decisions, len(ctx.decisions))
         return ctx
